@@ -31,6 +31,11 @@ impl Prop for C13Prop {
         vec!["probe.err-inside-message", "probe.err-at-message-start", "probe.polled-after-err", "probe.polled-after-none"]
     }
 
+    fn directed(&self, tier: Tier) -> Vec<Scenario> {
+        // every truncation / single-bit corruption of the base set, polled three more times
+        super::c04::enum_corpus("C13", tier, 3)
+    }
+
     fn gen(&self, rng: &mut Rng, tier: Tier) -> Scenario {
         let em = if rng.chance(3, 4) { Emphasis::mid_message() } else { Emphasis::inflation() };
         let mut s = smlgen::gen_file_scn(rng, tier, "C13", &em);
